@@ -70,3 +70,493 @@ def compare(srcs, rust, model):
         else:
             mism.append((i, r, m))
     return agree, mism, skipped, rejected
+
+
+# ====================================================================================================
+# ALL stream (extension round): programs over the built-ins that are library-backed in the Rust code —
+# sin cos tan asin acos atan log log10 exp, `^` (powf), trim uppercase lowercase, format, print,
+# time_now, to_string / join of values containing functions — run by the model coq/EvalAll.v with its
+# ORACLE record instantiated by lookup tables (coq/AllRun.v) that the harness dumps for exactly the calls
+# the batch makes (harness/src/s_all.rs: the same std functions blots-core calls).  The generator only
+# applies an oracle function to an argument whose value it computed itself (literals, IEEE arithmetic on
+# them — Python floats are binary64 —, and up to two nested oracle applications looked up through the
+# harness), so that every call of the batch is in the tables; a miss would surface as the sentinel of
+# AllRun.v and is counted, never compared.
+import struct as _struct
+
+ALL_REQUIRES = REQUIRES + ["Blots.EvalAll", "Blots.AllRun"]
+LIBM = ["sin", "cos", "tan", "asin", "acos", "atan", "log", "log10", "exp"]        # blots names, table ids 0..8
+LIBM_RUST = {"log": "ln"}
+STRFN = ["trim", "uppercase", "lowercase"]                                          # table ids 0..2
+STRFN_H = {"trim": "trim", "uppercase": "upper", "lowercase": "lower"}
+MISS_NUM = "7fe0dead0000beef"
+MISS_STR = "014d495353"
+NEWLY_MODELLED = LIBM + STRFN + ["format", "print", "time_now", "to_string", "join"]
+
+
+def _bits(x):
+    if x != x:
+        return 0x7ff8000000000000
+    return _struct.unpack(">Q", _struct.pack(">d", x))[0]
+
+
+def _unbits(b):
+    return _struct.unpack(">d", _struct.pack(">Q", b))[0]
+
+
+class NumE:
+    """a numeric expression whose value the generator knows: (source text, value)"""
+    __slots__ = ("src", "val", "depth")
+
+    def __init__(self, src, val, depth=0):
+        self.src, self.val, self.depth = src, val, depth
+
+
+NUM_LITS = [("0", 0.0), ("1", 1.0), ("2", 2.0), ("0.5", 0.5), ("3.25", 3.25), ("10", 10.0), ("100", 100.0), ("1000", 1000.0),
+            ("0.001", 0.001), ("1e10", 1e10), ("123456.789", 123456.789), ("0.1", 0.1), ("2.5", 2.5), ("0.75", 0.75),
+            ("1e300", 1e300), ("1e-300", 1e-300), ("1e15", 1e15), ("999999999999999.5", 999999999999999.5), ("0.0001", 0.0001),
+            ("3.141592653589793", 3.141592653589793), ("2.718281828459045", 2.718281828459045), ("1e-7", 1e-7),
+            ("0.30000000000000004", 0.30000000000000004), ("9007199254740993", 9007199254740992.0), ("1234.5", 1234.5),
+            ("5e-324", 5e-324), ("1.7976931348623157e308", 1.7976931348623157e308), ("710", 710.0), ("-745.2", None),
+            ("0.9999999999999999", 0.9999999999999999), ("1.0000000000000002", 1.0000000000000002), ("45", 45.0), ("1e22", 1e22)]
+
+
+def _arith(op, a, b):
+    try:
+        if op == "+":
+            return a + b
+        if op == "-":
+            return a - b
+        if op == "*":
+            return a * b
+        if op == "/":
+            if b == 0.0:
+                return None
+            return a / b
+    except OverflowError:
+        return None
+    return None
+
+
+class AllGen:
+    def __init__(self, rng, h, quick):
+        self.rng, self.h, self.quick = rng, h, quick
+        self.libm = {}     # (fn name, arg bits) -> result bits
+        self.powf = {}     # (x bits, y bits) -> result bits
+        self.strt = {}     # (fn name, arg str) -> result str
+        self.lam = []      # (lambda source, text)
+        self.now_bits = None
+        self.dist = {}     # built-in -> programs mentioning it
+        # ---- level 0 numbers: literals, negations, specials, IEEE arithmetic on two literals
+        L0 = []
+        for s, v in NUM_LITS:
+            if v is None:
+                continue
+            L0.append(NumE(s, v))
+        L0 += [NumE("(-%s)" % e.src, -e.val) for e in L0[:14]]
+        L0 += [NumE("inf", float("inf")), NumE("(-inf)", float("-inf")), NumE("(0/0)", float("nan")), NumE("(-0)", -0.0)]
+        ar = []
+        for _ in range(24 if quick else 120):
+            a, b, op = rng.choice(L0[:33]), rng.choice(L0[:33]), rng.choice(["+", "-", "*", "/"])
+            v = _arith(op, a.val, b.val)
+            if v is not None:
+                ar.append(NumE("(%s %s %s)" % (a.src, op, b.src), v))
+        self.L0 = L0 + ar
+        # ---- level 1 / 2: oracle applications, values through the harness
+        self._query_libm([(f, e.val) for f in LIBM for e in self.L0])
+        self.L1 = [NumE("%s(%s)" % (f, e.src), _unbits(self.libm[(f, _bits(e.val))]), 1) for f in LIBM for e in self.L0]
+        pp = [(a, b) for a in self.L0[:40] for b in self.L0[:40]]
+        pp = pp if not quick else rng.shuffle(pp)[:500]
+        self._query_powf([(a.val, b.val) for a, b in pp])
+        self.P1 = [NumE("(%s ^ %s)" % (a.src, b.src), _unbits(self.powf[(_bits(a.val), _bits(b.val))]), 1) for a, b in pp]
+        l1s = rng.shuffle(self.L1 + self.P1)[: (120 if quick else 900)]
+        self._query_libm([(f, e.val) for f in LIBM for e in l1s])
+        self.L2 = [NumE("%s(%s)" % (f, e.src), _unbits(self.libm[(f, _bits(e.val))]), 2) for f in LIBM for e in l1s]
+        pq = [(rng.choice(l1s), rng.choice(self.L0)) for _ in range(60 if quick else 400)]
+        pq += [(b, a) for a, b in pq[:30]]
+        self._query_powf([(a.val, b.val) for a, b in pq])
+        self.P2 = [NumE("(%s ^ %s)" % (a.src, b.src), _unbits(self.powf[(_bits(a.val), _bits(b.val))]), 2) for a, b in pq]
+        # ---- strings
+        S0 = ["", "abc", "  hello  ", "\tTab\n", "Stra\u00dfe", "\u01c6", "\u0130stanbul", "\u00a0x\u2003", "\u03a3\u0391\u03a3", "\u03c3\u03c2",
+              "\ufb01n", "MiXeD 123", "\u3000wide\u3000", "e\u0301", "\U0001F600 ok ", "a,b , c", "\u1e9e", "\u0149", "  ", "x\u200by",
+              "\u0085nel\u0085", "\u1680og\u1680", "\u0345", "\u03b0", "Ab", "aB", "  Q q ", "str", "{}", "a{}b", "m", "km", ", ", "k"]
+        S0 += [a + b for a, b in [(rng.choice(S0), rng.choice(S0)) for _ in range(10)]]
+        self.S0 = list(dict.fromkeys(S0))
+        self._query_str([(f, s) for f in STRFN for s in self.S0])
+        self.S1 = [(f, s, self.strt[(f, s)]) for f in STRFN for s in self.S0]
+        s1vals = list(dict.fromkeys(r for _, _, r in self.S1))
+        self._query_str([(f, s) for f in STRFN for s in s1vals])
+        self.now_bits = int(c.harness_oneshot(h, "all-now").strip(), 16)
+
+    # ---- harness oracle queries
+    def _query_libm(self, items):
+        items = [(f, v) for f, v in dict.fromkeys((f, _bits(v)) for f, v in items) if (f, v) not in self.libm]
+        outs = c.harness_lines_resilient(self.h, "all-libm", ["%s %016x" % (LIBM_RUST.get(f, f), b) for f, b in items])
+        for (f, b), o in zip(items, outs):
+            self.libm[(f, b)] = int(o, 16)
+
+    def _query_powf(self, items):
+        items = [k for k in dict.fromkeys((_bits(x), _bits(y)) for x, y in items) if k not in self.powf]
+        outs = c.harness_lines_resilient(self.h, "all-powf", ["%016x %016x" % k for k in items])
+        for k, o in zip(items, outs):
+            self.powf[k] = int(o, 16)
+
+    def _query_str(self, items):
+        items = [k for k in dict.fromkeys(items) if k not in self.strt]
+        outs = c.harness_lines_resilient(self.h, "all-str", ["%s %s" % (STRFN_H[f], c.hexs(s)) for f, s in items])
+        for k, o in zip(items, outs):
+            self.strt[k] = bytes.fromhex(o).decode("utf-8")
+
+    # ---- program pieces
+    def num(self, maxdepth=2):
+        r = self.rng
+        pools = [self.L0, self.L1 + self.P1, self.L2 + self.P2][: maxdepth + 1]
+        return r.choice(r.choice(pools))
+
+    @staticmethod
+    def sq(s):
+        return '"' + s.replace("\\", "\\\\").replace('"', '\\"').replace("\n", "\\n").replace("\t", "\\t") + '"'
+
+    def strexpr(self):
+        """-> source of a string expression all of whose oracle calls are in the tables"""
+        r = self.rng
+        k = r.below(6)
+        s = r.choice(self.S0)
+        if "\n" in s or "\t" in s or "\\" in s or '"' in s:      # escapes: keep the literal simple for the blots lexer
+            s = s.replace("\n", " ").replace("\t", " ")
+            if (STRFN[0], s) not in self.strt:
+                self._query_str([(f, s) for f in STRFN])
+                self._query_str([(g, self.strt[(f, s)]) for f in STRFN for g in STRFN])
+        f, g = r.choice(STRFN), r.choice(STRFN)
+        if k == 0:
+            return self.sq(s)
+        if k <= 3:
+            return "%s(%s)" % (f, self.sq(s))
+        return "%s(%s(%s))" % (g, f, self.sq(s))
+
+    LAMS = ["x => x", "x => x + 1", "(x, y) => x * y", "(x, y?) => x", "(...r) => r", "(a, ...r) => [a, ...r]", "() => 1",
+            "x => y => x + y", "x => x via (y => y * 2)", "n => if n > 0 then n else -n", "x => {a: x, \"b c\": [x]}",
+            "x => x.a[0]", "(x) => do { y = x + 1\n return y }", "x => sin(x) ^ 2", "s => uppercase(s) + \"!\"", "x => -x!",
+            "f => f(f)", "x => x ?? 0", "x => not x and true", "(x, i) => x .== i",
+            "(x, i) => i", "(a, x) => a + x", "x => x > 1", "x => \"k\"", "x => x(x)"]
+    FMTS = ["{}", "a{}b{}", "{{}}", "{{{}}}x{y}", "}{", "{", "}", "{}{}{}", "\u00e9{}\u00fc", "{}}", "{{}}x{{}{}}y{", "no braces", "",
+            "{}} {{}", "{ }", "{{", "}}", "\U0001F600{}\U0001F600", "{}{", "}{}", "{x}{}"]
+
+    def anyval(self, maxdepth=2):
+        r = self.rng
+        k = r.below(12)
+        if k <= 3:
+            return self.num(maxdepth).src
+        if k == 4:
+            return self.strexpr() if maxdepth >= 2 else self.sq(r.choice(self.S0[4:20]))
+        if k == 5:
+            return "(%s)" % r.choice(self.LAMS)
+        if k == 6:
+            return r.choice(["true", "false", "null", "sin", "format", "print", "time_now", "inputs.l", "inputs.s"])
+        if k == 7:
+            return "[%s, %s]" % (self.num().src, self.strexpr())
+        if k == 8:
+            return "{a: %s, \"k 2\": [(%s), %s]}" % (self.num().src, r.choice(self.LAMS), self.strexpr())
+        if k == 9:
+            return "[%s, [(%s), null], {f: cos}]" % (self.num(1).src, r.choice(self.LAMS))
+        if k == 10:
+            return "[...%s, 1]" % self.strexpr()
+        return "[]"
+
+    def direct_arg(self, bname):
+        """an argument for the DIRECT stream: no spreads (the vector is a list literal), oracle functions only on level-0 values"""
+        r = self.rng
+        k = r.below(10)
+        if k <= 2:
+            return r.choice(self.L0).src
+        if k == 3:
+            return self.sq(r.choice(self.S0[4:20] + ["{}", "a{}b", "str", "Ab"]))
+        if k == 4:
+            return "[%s, %s]" % (r.choice(self.L0).src, r.choice(self.L0).src)
+        if k == 5:
+            return r.choice(["[]", "[\"Ab\", \"aB\"]", "[[1], [2, 3]]", "{a: 1}", "{}", "[true, false]"])
+        if k == 6:
+            return r.choice(["x => x", "(x, i) => i", "(a, x) => a + x", "x => x > 1", "x => \"k\"", "() => 1", "x => x(x)"])
+        if k == 7:
+            return r.choice(["true", "false", "null"])
+        if k == 8:
+            return r.choice(["abs", "typeof", "len", "uppercase", "to_string"])
+        return r.choice(["1", "2", "0", "10", "100", "\"m\"", "\"km\"", "\", \""])     # numbers of level 0 only
+
+    def programs(self, n):
+        r = self.rng
+        out = []
+        num, st = self.num, self.strexpr
+
+        def one():
+            k = r.below(30)
+            f, g = r.choice(LIBM), r.choice(LIBM)
+            if k == 0:
+                return num().src
+            if k == 1:
+                a, b = num(1), num(1)
+                return "%s %s %s" % (a.src, r.choice(["+", "-", "*", "/", "<", ">=", "==", "%"]), b.src)
+            if k == 2:
+                return "%s(%s * 1000)" % (r.choice(["floor", "round", "trunc", "ceil", "abs", "sqrt"]), num().src)
+            if k == 3:
+                xs = [r.choice(self.L0) for _ in range(1 + r.below(4))]
+                return "[%s] via %s" % (", ".join(e.src for e in xs), f)
+            if k == 4:
+                xs = [r.choice(self.L0) for _ in range(r.below(4))]
+                return "map([%s], %s)" % (", ".join(e.src for e in xs), f)
+            if k == 5:
+                e = r.choice(self.L0)
+                return "x = %s\n%s(x) + %s(x)\n[x into %s, %s(x)]" % (e.src, f, g, f, f)
+            if k == 6:
+                xs = [r.choice(self.L0[:40]) for _ in range(1 + r.below(3))]
+                y = r.choice(self.L0[:40])
+                self._query_powf([(e.val, y.val) for e in xs] + [(y.val, e.val) for e in xs])
+                if r.chance(1, 2):
+                    return "[%s] ^ %s" % (", ".join(e.src for e in xs), y.src)
+                return "%s ^ [%s]" % (y.src, ", ".join(e.src for e in xs))
+            if k == 7:
+                return r.choice(["%s()", "%s(1, 2)", "%s(\"1\")", "%s([1])", "%s(null)", "%s(true)", "arity(%s)", "typeof(%s)", "%s"]) % f
+            if k == 8:
+                return st()
+            if k == 9:
+                return "len(%s) + len(%s)" % (st(), st())
+            if k == 10:
+                return "%s == %s" % (st(), st())
+            if k == 11:
+                if r.chance(1, 2):
+                    return "[%s, %s] via %s" % (self.sq("  Q q "), self.sq("Ab"), r.choice(STRFN))
+                return "split(%s, \" \")" % st()
+            if k == 12:
+                return r.choice(["%s()", "%s(1)", "%s(\"a\", \"b\")", "%s([\"a\"])", "%s(null)", "arity(%s)", "%s"]) % r.choice(STRFN)
+            if k == 13:
+                return "to_string(%s)" % self.anyval()
+            if k == 14:
+                return "join([%s, %s, %s], %s)" % (self.anyval(), self.anyval(), self.anyval(), self.sq(r.choice([", ", "", "-", "\u00b7"])))
+            if k == 15:
+                na = r.below(4)
+                return "format(%s%s)" % (self.sq(r.choice(self.FMTS)), "".join(", " + self.anyval() for _ in range(na)))
+            if k == 16:
+                return r.choice(["format()", "format(1)", "format(null, 1)", "format([\"{}\"], 1)", "format(\"{}\", ...[1, 2])",
+                                 "format(...[\"{}-{}\", 1, 2])", "[\"{}\"] via format", "\"{}!\" into format"])
+            if k == 17:
+                na = r.below(3)
+                return "print(%s%s)" % (r.choice([self.sq(r.choice(self.FMTS)), self.anyval()]), "".join(", " + self.anyval() for _ in range(na)))
+            if k == 18:
+                return r.choice(["print()", "print(1, 2)", "print(null, \"x\")", "typeof(print(\"a\"))", "[1, 2] via print", "print(print(1))",
+                                 "x = print(\"{}\", 2)\nx == null"])
+            if k == 19:
+                return r.choice(["typeof(time_now())", "time_now() > 1700000000", "time_now() < 1e11", "time_now(1)", "arity(time_now)",
+                                 "floor(time_now() / 1e10)", "time_now() == (0/0)", "do { t = time_now()\n return t > 0 and t == t }", "[time_now] via arity",
+                                 "to_string(time_now)", "time_now() >= %d" % int(_unbits(self.now_bits))])
+            if k == 20:
+                e = num(1)
+                return "format(\"{} | {}\", %s, to_string(%s))" % (e.src, e.src)
+            if k == 21:
+                return "f = %s\nto_string(f)\njoin([f, f], \"|\")" % r.choice(self.LAMS)
+            if k == 22:
+                return "sort_by([%s, %s, %s], %s)" % (r.choice(self.L0).src, r.choice(self.L0).src, r.choice(self.L0).src, f)
+            if k == 23:
+                return "g = x => %s(x) * 2\ng(%s)" % (f, r.choice(self.L0).src)
+            if k == 24:
+                return "reduce([%s, %s], (a, x) => a + %s(x), 0)" % (r.choice(self.L0).src, r.choice(self.L0).src, f)
+            if k == 25:
+                return "filter([%s, %s, %s], x => %s(x) > 0)" % (r.choice(self.L0).src, r.choice(self.L0).src, r.choice(self.L0).src, f)
+            if k == 26:
+                return "group_by([%s, %s], %s)" % (self.sq("Ab"), self.sq("aB"), r.choice(STRFN))
+            if k == 27:
+                return "{v: %s, s: %s, t: to_string((%s))}" % (num().src, st(), r.choice(self.LAMS))
+            if k == 28:
+                return "if %s > %s then %s else %s" % (num(1).src, num(1).src, st(), "format(\"{}\", %s)" % num(1).src)
+            return "output o = %s\no" % num().src
+        for _ in range(n):
+            out.append(one())
+        return out
+
+    # ---- tables as a Gallina definition
+    def lam_table(self):
+        """closed lambdas: (source, text of to_string) through the real evaluator"""
+        srcs = list(self.LAMS)
+        outs = rust_eval(self.h, ["to_string(%s)" % s for s in srcs], None)
+        terms, _ = parse_to_coq(self.h, ["(%s)" % s for s in srcs])
+        tab = []
+        for s, o, t in zip(srcs, outs, terms):
+            m = None
+            if o.startswith("OK:S"):
+                m = o[4:o.index(";")]
+            if m is None or t is None or not t.startswith("[SExpr ("):
+                continue
+            tab.append((t[len("[SExpr ("):-2], m))
+        self.lam = tab
+        return tab
+
+    def coq_tables(self):
+        lid = {f: i for i, f in enumerate(LIBM)}
+        sid = {f: i for i, f in enumerate(STRFN)}
+        libm = "; ".join("(%d, 0x%016x, 0x%016x)" % (lid[f], b, r) for (f, b), r in sorted(self.libm.items()))
+        powf = "; ".join("(0x%016x, 0x%016x, 0x%016x)" % (x, y, r) for (x, y), r in sorted(self.powf.items()))
+        strs = "; ".join('(%d, hx "%s", hx "%s")' % (sid[f], c.hexs(s), c.hexs(r)) for (f, s), r in sorted(self.strt.items()))
+        lam = "; ".join('(%s, hx "%s")' % (t, m) for t, m in self.lam_table())
+        return ("Definition T : tables := {| t_libm := [%s]; t_powf := [%s]; t_str := [%s]; t_lam := [%s]; t_now := Some 0x%016x |}."
+                % (libm, powf, strs, lam, self.now_bits))
+
+
+def _mentions(src, name):
+    import re as _re
+    return _re.search(r"(?<![A-Za-z0-9_])%s(?![A-Za-z0-9_])" % name, src) is not None
+
+
+def run_all_stream(h, rng, quick, res, cli=None, tag="all"):
+    """ALL correspondence: model (EvalAll + table oracle) vs implementation.  Returns the stream's evidence dict."""
+    g = AllGen(rng, h, quick)
+    srcs = g.programs(900 if quick else 9000)
+    # direct built-in x argument grid for the newly modelled built-ins (the BUILTIN-style cases)
+    for b in NEWLY_MODELLED:
+        # an oracle function is applied to level-0 arguments here: the tables hold every function on every level-0 value
+        av = (lambda: g.anyval(0)) if b in LIBM + STRFN else g.anyval
+        srcs.append("typeof(%s())" % b)
+        for _ in range(6 if quick else 40):
+            srcs.append("%s(%s)" % (b, av()))
+            srcs.append("%s(%s, %s)" % (b, av(), av()))
+        srcs.append("%s(%s, %s, %s)" % (b, av(), av(), av()))
+    defs = g.coq_tables()          # after programs(): the generator may have extended the tables
+    inp = "[" + "; ".join('((hx "%s"), %s)' % (c.hexs(k), v.coq()) for k, v in DEFAULT_INPUTS.p) + "]"
+    defs = "Definition INP : list (string * value) := %s.\n%s" % (inp, defs)
+    coq, _ = parse_to_coq(h, srcs)
+    idx = [i for i, p in enumerate(coq) if p is not None]
+    outs = c.coq_eval_batch(ALL_REQUIRES, defs, ["(run_program_all_tab T INP %s)" % coq[i] for i in idx], tag, shard=120)
+    model = [None] * len(srcs)
+    for i, o in zip(idx, outs):
+        model[i] = o
+    rust = rust_eval(h, srcs)
+    agree, mism, rejected, miss, unm, failed = 0, [], 0, 0, 0, 0
+    reach = {b: 0 for b in NEWLY_MODELLED + ["^"]}
+    outcome = {}
+    for s, r_, m_, cq in zip(srcs, rust, model, coq):
+        if cq is None:
+            rejected += 1
+            continue
+        if m_ is None:
+            failed += 1
+            continue
+        if MISS_NUM in m_ or MISS_STR in m_:
+            miss += 1
+            continue
+        if "UNMODELLED" in m_:
+            unm += 1
+            continue
+        if r_ == m_:
+            agree += 1
+            for b in reach:
+                if (b == "^" and "^" in s) or (b != "^" and _mentions(s, b)):
+                    reach[b] += 1
+            k = "ERR" if "ERR" in r_.split(";ENV:")[0].split("|")[-1] else "OK"
+            outcome[k] = outcome.get(k, 0) + 1
+        else:
+            mism.append((s, r_, m_))
+    if failed:
+        res.tie_broken("correspondence C01/ALL: the model did not evaluate %d programs (coqc failed)" % failed)
+    if unm:
+        res.tie_broken("correspondence C01/ALL: the complete model answered Unmodelled on %d programs, contradicting "
+                       "C01_program_never_unmodelled_all" % unm)
+    if mism:
+        res.tie_broken("correspondence C01/ALL: model (EvalAll + oracle tables) and implementation disagree on %d of %d programs"
+                       % (len(mism), len(srcs)), "first: %r\nimpl : %s\nmodel: %s" % mism[0])
+    ev = {"programs": len(srcs), "agree": agree, "mismatches": len(mism), "parser_rejected": rejected, "oracle_table_miss_skipped": miss,
+          "unmodelled": unm, "programs_reaching_each_builtin(agreeing programs that mention it)": reach, "last_statement_outcome": outcome,
+          "oracle_tables": {"libm": len(g.libm), "powf": len(g.powf), "str": len(g.strt), "lambda_text": len(g.lam)},
+          "numeric_argument_pool": {"level0": len(g.L0), "level1": len(g.L1) + len(g.P1), "level2": len(g.L2) + len(g.P2)},
+          "string_pool": len(g.S0)}
+    # ---- PRINT: the line handed to eprintln! — model vs the harness mirror of the Print arm vs the real binary's stderr
+    psrcs = []
+    for _ in range(150 if quick else 1500):
+        na = rng.below(4)
+        first = rng.choice([g.sq(rng.choice(g.FMTS)), g.anyval()])
+        psrcs.append("[%s%s]" % (first, "".join(", " + g.anyval() for _ in range(na))))
+    psrcs = [p for p in psrcs if "time_now()" not in p]
+    pdefs = "Definition INP : list (string * value) := %s.\n%s" % (inp, g.coq_tables())
+    pcoq, _ = parse_to_coq(h, psrcs)
+    pidx = [i for i, p in enumerate(pcoq) if p is not None]
+    pouts = c.coq_eval_batch(ALL_REQUIRES, pdefs, ["(show_print T INP %s)" % pcoq[i] for i in pidx], tag + "p", shard=120)
+    pmodel = [None] * len(psrcs)
+    for i, o in zip(pidx, pouts):
+        pmodel[i] = o
+    pimpl = c.harness_lines_resilient(h, "all-print", [c.hexs(s) + "\t" + c.hexs(DEFAULT_INPUTS_JSON) for s in psrcs])
+    pag, pmis, pmiss = 0, [], 0
+    for s, a, b in zip(psrcs, pimpl, pmodel):
+        if b is None:
+            continue
+        if MISS_STR in b or MISS_NUM in b:
+            pmiss += 1
+        elif a == b:
+            pag += 1
+        else:
+            pmis.append((s, a, b))
+    if pmis:
+        res.tie_broken("correspondence C01/PRINT: model print_line and the implementation disagree on %d of %d argument lists"
+                       % (len(pmis), len(psrcs)), "first: %r\nimpl : %s\nmodel: %s" % pmis[0])
+    ev["PRINT"] = {"argument_lists": len(psrcs), "agree": pag, "mismatches": len(pmis), "oracle_table_miss_skipped": pmiss,
+                   "ok_lines": sum(1 for a in pimpl if a.startswith("OK:"))}
+    if cli is not None:
+        import subprocess as _sp, tempfile as _tf, os as _os
+        okp = [(s, a) for s, a in zip(psrcs, pimpl) if a.startswith("OK:") and b"\n" not in bytes.fromhex(a[3:])][: (60 if quick else 400)]
+        text = "\n".join("print(%s)" % s[1:-1] for s, _ in okp) + "\n"
+        fd, path = _tf.mkstemp(prefix="xall_", suffix=".blots")
+        with _os.fdopen(fd, "wb") as f:
+            f.write(text.encode("utf-8"))
+        try:
+            p = _sp.run([cli, path, "-i", DEFAULT_INPUTS_JSON], stdin=_sp.DEVNULL, stdout=_sp.PIPE, stderr=_sp.PIPE, timeout=120)
+            lines = p.stderr.decode("utf-8", "replace").split("\n")
+            if lines and lines[-1] == "":
+                lines.pop()
+            exp = [bytes.fromhex(a[3:]).decode("utf-8") for _, a in okp]
+            bad = [(s, e, l) for (s, _), e, l in zip(okp, exp, lines) if e != l]
+            if p.returncode != 0 or len(lines) != len(exp) or bad:
+                res.tie_broken("correspondence C01/PRINT-cli: stderr of the real binary differs from the mirrored Print arm",
+                               "exit %s, %d lines for %d prints; first difference: %r" % (p.returncode, len(lines), len(exp), bad[:1]))
+            ev["PRINT"]["real_binary_stderr_lines_compared"] = len(exp)
+            ev["PRINT"]["real_binary_stderr_equal"] = (p.returncode == 0 and len(lines) == len(exp) and not bad)
+        finally:
+            _os.remove(path)
+    # ---- DIRECT: BuiltInFunction::call WITHOUT the arity check (every built-in x argument vectors of length
+    #      0 .. max arity + 1): the model's explicit Panic arms and the order of args[i] / type checks in each arm
+    dump = c.harness_oneshot(h, "dump-builtins").strip().split("\n")
+    dcases = []
+    for ln in dump:
+        nm, kind, a, b = ln.split("\t")[:4]
+        hi = int(a) if kind != "between" else int(b)
+        hi = max(hi, 1) + 1
+        for n in range(0, hi + 1):
+            for _ in range(1 if n == 0 else (3 if quick else 12)):
+                dcases.append((nm, "[%s]" % ", ".join(g.direct_arg(nm) for _ in range(n))))
+    ddefs = "Definition INP : list (string * value) := %s.\n%s" % (inp, g.coq_tables())
+    dcoq, _ = parse_to_coq(h, [s_ for _, s_ in dcases])
+    didx = [i for i, p in enumerate(dcoq) if p is not None]
+    douts = c.coq_eval_batch(ALL_REQUIRES, ddefs, ["(show_direct T INP B_%s %s)" % (dcases[i][0], dcoq[i]) for i in didx],
+                             tag + "d", shard=120)
+    dmodel = [None] * len(dcases)
+    for i, o in zip(didx, douts):
+        dmodel[i] = o
+    dimpl = c.harness_lines_resilient(h, "all-direct", ["%s\t%s\t%s" % (nm, c.hexs(s_), c.hexs(DEFAULT_INPUTS_JSON)) for nm, s_ in dcases])
+    dag, dmis, dmiss, dpanic, dkinds = 0, [], 0, 0, {}
+    for (nm, s_), a, b in zip(dcases, dimpl, dmodel):
+        if b is None:
+            continue
+        a = "PANIC" if a.startswith("PANIC") else a
+        if nm == "time_now" and a.startswith("OK:N") and b.startswith("OK:N"):
+            a = b                      # the clock moved on between the two runs
+        if MISS_STR in b or MISS_NUM in b:
+            dmiss += 1
+        elif a == b:
+            dag += 1
+            dpanic += a == "PANIC"
+            k = a.split(":")[0]
+            dkinds[k] = dkinds.get(k, 0) + 1
+        else:
+            dmis.append(("%s %s" % (nm, s_), a, b))
+    if dmis:
+        res.tie_broken("correspondence C01/DIRECT: BuiltInFunction::call without the arity check — model and implementation "
+                       "disagree on %d of %d argument vectors" % (len(dmis), len(dcases)), "first: %r\nimpl : %s\nmodel: %s" % dmis[0])
+    ev["DIRECT"] = {"argument_vectors": len(dcases), "agree": dag, "mismatches": len(dmis), "oracle_table_miss_skipped": dmiss,
+                    "agreeing_outcomes": dkinds, "panics_agreed(model Panic arm = Rust panic)": dpanic}
+    res.coverage["traces_validated_against_impl"] = res.coverage.get("traces_validated_against_impl", 0) + agree + pag + dag
+    return ev
